@@ -172,12 +172,17 @@ func (e *enc) candKinds(v ssa.Value, t Term) (*shapeDB, []string) {
 					e.once("shape#static#"+name+"#"+t, func() {
 						e.assume(fmt.Sprintf("(=> (not (= %s 0)) (= (%s %s) %d))", t, e.fKind(), t, e.kindTag(name)))
 					})
+					e.setCand(t, db, []string{name})
 					return db, []string{name}
 				}
 			} else if strings.HasPrefix(name, "I") && strings.HasSuffix(name, "Context") {
 				rule := strings.TrimSuffix(name[1:], "Context")
 				rule = strings.ToLower(rule[:1]) + rule[1:]
 				if ks, ok := db.kinds[rule]; ok {
+					if c, ok := e.nodeCand[t]; ok && len(c.kinds) < len(ks) {
+						return c.db, c.kinds
+					}
+					e.setCand(t, db, ks)
 					return db, ks
 				}
 			}
@@ -308,6 +313,21 @@ func (e *enc) prefixFacts(db *shapeDB, cs *ctxShape, n Term) Term {
 		}
 		parts = append(parts, "(or "+strings.Join(ws, " ")+")")
 	}
+	// kinds possible at positions other than the last / the first
+	pos := func(syms []string, lo, hi string) {
+		var ms []string
+		c := fmt.Sprintf("(%s %s i)", e.fChild(), n)
+		for _, s := range syms {
+			ms = append(ms, e.symMatch(db, c, s))
+		}
+		body := "false"
+		if len(ms) > 0 {
+			body = "(or " + strings.Join(ms, " ") + " false)"
+		}
+		parts = append(parts, fmt.Sprintf("(forall ((i Int)) (! (=> (and (<= %s i) (< i %s)) %s) :pattern (%s)))", lo, hi, body, c))
+	}
+	pos(cs.nonLast, "0", fmt.Sprintf("(- (%s %s) 1)", e.fNchild(), n))
+	pos(cs.nonFirst, "1", fmt.Sprintf("(%s %s)", e.fNchild(), n))
 	if len(parts) == 0 {
 		return "true"
 	}
